@@ -317,6 +317,45 @@ def storeShowObj (s : Store) : Nat → ObjId → ObjType → String
 /-- the whole visible document read from the store (`fuel` bounds the nesting depth) -/
 def storeShowDoc (s : Store) (fuel : Nat) : String := storeShowObj s fuel .root .map
 
+/-! ### the hypotheses of the refinement theorems, as executable checks
+
+  `Proofs/StoreBuild.lean` proves them sound (`admissibleB_sound`, …); the driver evaluates them on the
+  op list of every replica it dumps, so the differential run also shows that the histories the
+  library makes satisfy the hypotheses of `C02_store_*` / `C01_store_*`. -/
+
+def strictIdsB : List Op → Bool
+  | [] => true
+  | x :: xs => xs.all (fun y => !(x.id == y.id)) && strictIdsB xs
+
+def refsSmallerB (ops : List Op) : Bool :=
+  ops.all (fun o => !o.insert || (match o.key with | .elem e => e.lt o.id | _ => true))
+
+/-- `WF`: distinct ids, an element is created after its reference element and updated after it is
+    created, one kind of key per object, inserts are keyed on elements, only inserts on HEAD -/
+def wfB (ops : List Op) : Bool :=
+  strictIdsB ops && refsSmallerB ops &&
+  ops.all (fun x => ops.all (fun y => !(x.obj == y.obj) || x.key.isMap == y.key.isMap)) &&
+  ops.all (fun x => !x.insert || (!x.key.isMap && !x.isDel)) &&
+  ops.all (fun x => x.insert || !(x.key == .head)) &&
+  ops.all (fun x => x.insert || (match x.key with | .elem e => e.lt x.id | _ => true))
+
+/-- `Fresh`: nothing refers to `N` yet, and the element `N` is keyed on is in the element order -/
+def freshB (ops : List Op) (N : Op) : Bool :=
+  (ops ++ [N]).all (fun x => !x.pred.contains N.id) &&
+  (ops ++ [N]).all (fun x => !(x.key == .elem N.id)) &&
+  (match N.key with
+   | .elem e => (rgaOrder ops N.obj).any (fun c => c.id == e)
+   | _ => true)
+
+/-- every prefix is well formed and every op is fresh with respect to the ops before it -/
+def admissibleB (ops : List Op) : Bool :=
+  (List.range ops.length).all (fun i => wfB (ops.take (i + 1)) &&
+    (match ops[i]? with | some N => freshB (ops.take i) N | none => false))
+
+/-- `PredsOk`: every op names predecessors of its own register only -/
+def predsOkB (ops : List Op) : Bool :=
+  ops.all (fun N => ops.all (fun x => !N.pred.contains x.id || (x.obj == N.obj && x.regKey == N.regKey)))
+
 /-! ### canonical text of the rows (shared with the harness hook `verif_dump_ops`) -/
 
 def showKeyTok : Key → String
